@@ -43,7 +43,8 @@ a refusal hands back the existing operation; a move is complete, moves the join 
 reported second operation are well-formed where they would be applied, the columns are those of joining at
 the root, and the rows are those of joining at the root - as a multiset always (a join defines no row
 order: with the fixed relation on the left the nested-loop order of `joinRows` groups by the fixed row),
-and as a list, order included, whenever the existing operation is not a sort. -/
+and as a list, order included, whenever the existing operation is not a sort or the target is the left (outer)
+operand of the join. -/
 def pjoinCommuteSoundAt (p : PJoin) (cur : UOp) (tcols : Cols) (F l : List Row) : Prop :=
   let ccols := cur.appliedColumns tcols
   let c := p.commute cur tcols ccols
@@ -55,6 +56,7 @@ def pjoinCommuteSoundAt (p : PJoin) (cur : UOp) (tcols : Cols) (F l : List Row) 
     f = p ∧ c.2.2 = true ∧ p.columnsRequired.subset tcols = true ∧ c.2.1.wfOn jc = true ∧
     (∀ x, x ∈ sc ↔ x ∈ p.appliedColumns ccols) ∧
     List.Perm (c.2.1.sem sc (p.semRows F l)) (p.semRows F (cur.sem ccols l)) ∧
-    ((∀ ts, cur ≠ .sort ts) → c.2.1.sem sc (p.semRows F l) = p.semRows F (cur.sem ccols l))
+    (((∀ ts, cur ≠ .sort ts) ∨ p.fixedIsLhs = false) →
+      c.2.1.sem sc (p.semRows F l) = p.semRows F (cur.sem ccols l))
 
 end DafRel
